@@ -16,6 +16,8 @@ package samlsp
 //@ -- exactly one allowed signing method: the codec's own
 //@ assert@call[C16] ParseWithClaims #1 (p *jwt.Parser, token string) allowed_methods:
 //@    p != nil && len(p.ValidMethods) == 1 && p.ValidMethods[0] == c.SigningMethod.Alg() && token == signed
+//@ -- and the parser's own claims validation (exp, nbf: the session's lifetime) stays on
+//@ assert@call[C16] ParseWithClaims #each (p *jwt.Parser, token string) parser_checks_expiry: !p.SkipClaimsValidation
 //@ -- success only after the library accepted the token AND audience, issuer and the session marker match
 //@ ensures[C16] audience: err == nil ==> isSessionClaims(result) && sessionClaims(result).Audience == c.Audience && c.Audience != ""
 //@ ensures[C16] issuer: err == nil ==> sessionClaims(result).Issuer == c.Issuer && c.Issuer != ""
@@ -70,6 +72,8 @@ package samlsp
 //@ ensures[C04,C17] nil_iff_err: (result == nil) == (err != nil)
 //@ assert@call[C04,C17] ParseWithClaims #1 (p *jwt.Parser, token string) allowed_methods:
 //@    p != nil && len(p.ValidMethods) == 1 && p.ValidMethods[0] == s.SigningMethod.Alg() && token == signed
+//@ -- and it is the parser that enforces the lifetime fixed at mint time (exp, nbf): its claims validation stays on
+//@ assert@call[C04,C17] ParseWithClaims #each (p *jwt.Parser, token string) parser_checks_expiry: !p.SkipClaimsValidation
 //@ -- a tracked request is returned only for tokens carrying the tracking marker (a session token is not one)
 //@ assert@store[C04,C17] Index #1 uses claims JWTTrackedRequestClaims only_marked_tokens:
 //@    claims.SAMLAuthnRequest && claims.Issuer == s.Issuer && s.Issuer != ""
